@@ -265,6 +265,18 @@ def check_sorts_desc(P, R, ep):
                     cf = P.fns.get(x[1][len("closure:"):])
                     if cf:
                         rets = A.returned_syms(cf)
+                        if len(rets) == 1 and c.name.rsplit("::", 1)[1] in ("sort_by_key", "sort_unstable_by_key", "sort_by_cached_key"):
+                            # key closure: Reverse(level) sorts descending, the bare level ascending
+                            rk = strip(rets[0][1])
+                            revs_ = sum(1 for y in walk(rk) if y[0] == "agg" and "std::cmp::Reverse" in str(y[1])) + sum(1 for y in walk(rk) if y[0] == "un" and y[1] == "Neg")
+                            if revs_ % 2 == 1:
+                                ok = True
+                            elif not any(c2.name.endswith(("::reverse", "::rev")) for c2 in ep.calls() if c2.bb in ep.reach(c.bb)):
+                                R.violate("b", "levels-ascending", "execute_parallel sorts the salience levels by an ascending key and never reverses them", ep, c.line)
+                                return
+                            else:
+                                ok = True
+                            continue
                         if len(rets) == 1:
                             r = strip(rets[0][1])
                             rev = 0
